@@ -34,7 +34,7 @@ def FLOORS(tier):
     q = tier == "quick"
     f = {"immutability-checks": 20000 if q else 10 ** 6, "monitored-entry-points-hit": 70, "round-trips": 300 if q else 10000,
          "aliasing-probes": 2500 if q else 10 ** 5, "round-trip:with-constraints": 40, "round-trip:permuted-mapping": 40,
-         "round-trip:stale-mapping": 40, "round-trip:named": 60, "round-trip:falsy-name": 25, "round-trip:info-without-optional-entries": 60, "retained:operand-with-constraints": 8,
+         "round-trip:stale-mapping": 40, "round-trip:named": 60, "round-trip:falsy-name": 25, "round-trip:info-without-optional-entries": 60, "retained:operand-with-constraints": 4,
          "zero-entry-dict-calls": 100, "retained:add_constraint_eq_zero": 30, "retained-arg:PUBO": 15, "retained-arg:dict": 15}
     for u in UNDER:
         f["under:" + u] = 30 if q else 1000
